@@ -32,7 +32,7 @@ if REPO != "/repo" or True:
     if REPO not in sys.path:
         sys.path.insert(0, REPO)
 
-EVIDENCE_DIR = os.path.join(VERIF, "evidence")
+EVIDENCE_DIR = os.environ.get("VERIF_EVIDENCE_DIR") or os.path.join(VERIF, "evidence")
 REPLAY_DIR = os.path.join(EVIDENCE_DIR, "replays")
 KNOWN = os.path.join(VERIF, "known_findings.json")
 
